@@ -352,3 +352,87 @@ func c18r3(rc *core.RC) {
 		return scannerFiles[rc.P.FileBase(f.Pos())]
 	})
 }
+
+// ---- C18.R6 the HTML-escape decision is handed down unchanged ----
+
+// Compact and Indent (and the validation of marshaler output) thread one bool, the HTML-escape
+// decision, from the entry point down to compactString. Every function of the encoder that has
+// such a parameter must pass its own parameter, not a constant or another value, to each callee
+// that has one. (The entry points, which have no such parameter, choose the value.)
+func c18r6(rc *core.RC) {
+	p := rc.P
+	// functions of package encoder with exactly one bool parameter named like the escape flag
+	flagOf := map[*types.Func]int{}
+	decl := map[*types.Func]*ast.FuncDecl{}
+	for _, fd := range p.Funcs("encoder") {
+		if fd.Body == nil || fd.Recv != nil {
+			continue
+		}
+		file := p.FileBase(fd.Pos())
+		if file != "compact.go" && file != "indent.go" {
+			continue
+		}
+		info := p.Info(fd)
+		obj, _ := info.Defs[fd.Name].(*types.Func)
+		if obj == nil {
+			continue
+		}
+		k, idx, cnt := 0, -1, 0
+		for _, f := range fd.Type.Params.List {
+			for _, nm := range f.Names {
+				if o := info.Defs[nm]; o != nil && o.Type().String() == "bool" {
+					idx = k
+					cnt++
+				}
+				k++
+			}
+		}
+		if cnt == 1 {
+			flagOf[obj] = idx
+			decl[obj] = fd
+		}
+	}
+	n := 0
+	for obj, fd := range decl {
+		info := p.Info(fd)
+		var own types.Object
+		k := 0
+		for _, f := range fd.Type.Params.List {
+			for _, nm := range f.Names {
+				if k == flagOf[obj] {
+					own = info.Defs[nm]
+				}
+				k++
+			}
+		}
+		fn := p.FuncName(fd)
+		seq := map[string]int{}
+		ast.Inspect(fd.Body, func(m ast.Node) bool {
+			call, ok := m.(*ast.CallExpr)
+			if !ok {
+				return true
+			}
+			callee := core.Callee(info, call)
+			if callee == nil {
+				return true
+			}
+			ci, has := flagOf[callee.Origin()]
+			if !has || ci >= len(call.Args) {
+				return true
+			}
+			n++
+			rc.Touch(fn)
+			seq[callee.Name()]++
+			key := fmt.Sprintf("%s/escape-flag to %s#%d", fn, callee.Name(), seq[callee.Name()])
+			if core.ObjOf(info, call.Args[ci]) == own {
+				rc.OK(key, call.Pos(), "passes its own escape parameter on")
+			} else {
+				rc.Bad(key, call.Pos(), "%s receives the HTML-escape decision as a parameter but passes `%s` to %s: that part of the text (here: what %s copies) is escaped differently from the rest, so Compact and Indent, or MarshalIndent and Indent(Marshal), disagree", fd.Name.Name, core.Src(p.Fset, call.Args[ci]), callee.Name(), callee.Name())
+			}
+			return true
+		})
+	}
+	if n < 12 {
+		rc.Unknown("encoder/escape-flag-calls", token.NoPos, "found %d calls that hand the escape flag down in compact.go/indent.go", n)
+	}
+}
